@@ -167,13 +167,14 @@ MwIn == /\ pc \in {"call", "mwin"} /\ ~(pc = "call" /\ Expired)
 LateGiveUp(hint) == dpass /\ hint = "MwOut"
 EndHop(o) == /\ oc' = o /\ pc' = "mwout" /\ mwi' = cfg.mw
 
-GiveUp(hint) == /\ pc \in {"decide", "ask", "wait", "att", "dialed"} /\ LateGiveUp(hint)
-                /\ EndHop(Fail("timeout")) /\ out' = None
+GiveUp(hint) == /\ pc \in {"decide", "ask", "wait"} /\ LateGiveUp(hint)
+                /\ ~oc.ok /\ out' = None      \* a timeout, or the error of a dial made after the deadline
+                /\ EndHop(IF cancelled THEN Fail("late") ELSE oc)      \* "late": deadline passed and context done, either error
                 /\ UNCHANGED <<cfg, si, url, meth, bodyk, hop, att, free, sends, live, stale, dpass, cancelled, hist>>
 
 \* for { select { case <-ctx.Done(): return ctx.Err() ...
-AttCancelled(hint) == /\ pc = "att" /\ cancelled /\ ~LateGiveUp(hint)
-                      /\ EndHop(Fail("canceled")) /\ out' = None
+AttCancelled(hint) == /\ pc = "att" /\ cancelled
+                      /\ EndHop(Fail(IF dpass THEN "late" ELSE "canceled")) /\ out' = None
                       /\ UNCHANGED <<cfg, si, url, meth, bodyk, hop, att, free, sends, live, stale, dpass, cancelled, hist>>
 
 ReqRec(reused) == [ev |-> "Req", x |-> 1, reused |-> reused, method |-> meth, target |-> Target(url), host |-> HostHdr(url),
@@ -211,7 +212,7 @@ Exchange(reused, idleLive, idleStale) ==
 \* acquireConn hands out the idle connection the peer has closed: the request is written, the first read is EOF
 AttStale(hint) ==
   LET a == Addr(url) IN
-  /\ pc = "att" /\ ~cancelled /\ ~LateGiveUp(hint) /\ a \in stale
+  /\ pc = "att" /\ ~cancelled /\ a \in stale
   /\ stale' = stale \ {a}
   /\ UNCHANGED <<cfg, si, mwi, url, meth, bodyk, hop, att, sends, live, dpass, cancelled>>
   /\ IF dpass THEN /\ oc' = Fail("timeout") /\ pc' = "decide" /\ out' = None /\ UNCHANGED <<free, hist>>
@@ -222,7 +223,7 @@ AttStale(hint) ==
 
 AttLive(hint) ==
   LET a == Addr(url) IN
-  /\ pc = "att" /\ ~cancelled /\ ~LateGiveUp(hint) /\ a \in live
+  /\ pc = "att" /\ ~cancelled /\ a \in live
   /\ IF dpass THEN /\ live' = live \ {a} /\ oc' = Fail("timeout") /\ pc' = "decide" /\ out' = None
                    /\ UNCHANGED <<cfg, si, mwi, url, meth, bodyk, hop, att, free, sends, stale, dpass, cancelled, hist>>
      ELSE Exchange(TRUE, live \ {a}, stale)
@@ -231,7 +232,7 @@ AttDial(hint) ==
   LET a == Addr(url)
       refuse == HasEntry /\ Entry.b = "dialerr"
   IN
-  /\ pc = "att" /\ ~cancelled /\ ~LateGiveUp(hint) /\ a \notin live \cup stale
+  /\ pc = "att" /\ ~cancelled /\ a \notin live \cup stale
   /\ UNCHANGED <<cfg, mwi, url, meth, bodyk, hop, att, free, sends, live, stale, dpass, cancelled, hist>>
   /\ IF dpass /\ hint # "Dial"
      THEN /\ oc' = Fail("timeout") /\ pc' = "decide" /\ out' = None /\ UNCHANGED si     \* errTimeout without a connection
@@ -241,7 +242,7 @@ AttDial(hint) ==
                        ELSE /\ pc' = "dialed" /\ UNCHANGED <<si, oc>>
 
 Dialed(hint) ==
-  /\ pc = "dialed" /\ ~LateGiveUp(hint)
+  /\ pc = "dialed"
   /\ IF dpass THEN /\ oc' = Fail("timeout") /\ pc' = "decide" /\ out' = None   \* updateReqTimeout: shouldClose
                    /\ UNCHANGED <<cfg, si, mwi, url, meth, bodyk, hop, att, free, sends, live, stale, dpass, cancelled, hist>>
      ELSE Exchange(FALSE, live, stale)
@@ -327,7 +328,8 @@ DCap(q) == IF q.via = "delay" /\ q.maxDelay > 0 THEN q.maxDelay ELSE Big
 TermLo(q, p) == CASE p = "fixed" -> q.delay
                   [] p = "backoff" -> IF q.delay <= 0 THEN 0 ELSE IF q.k > 20 THEN Big ELSE q.delay * Pow2(q.k)
                   [] OTHER -> 0
-TermHi(q, p) == IF p = "random" THEN (IF q.maxJitter <= 0 THEN 0 ELSE q.maxJitter - 1) ELSE TermLo(q, p)
+\* "picks a random delay up to MaxJitter": the bound itself is allowed (the code stays below it)
+TermHi(q, p) == IF p = "random" THEN (IF q.maxJitter <= 0 THEN 0 ELSE q.maxJitter) ELSE TermLo(q, p)
 RECURSIVE SumCapped(_, _, _, _)
 SumCapped(q, i, hi, acc) == IF i > Len(q.pol) THEN acc
                             ELSE SumCapped(q, i + 1, hi, Min(DCap(q), acc + Min(DCap(q), IF hi THEN TermHi(q, q.pol[i]) ELSE TermLo(q, q.pol[i]))))
